@@ -25,12 +25,14 @@ import (
 	"fmt"
 	"io"
 	"os"
+	"sort"
 	"strconv"
 	"strings"
 	"testing"
 	"time"
 
 	"github.com/mgtv-tech/redis-GunYu/config"
+	"github.com/mgtv-tech/redis-GunYu/pkg/log"
 	"github.com/mgtv-tech/redis-GunYu/pkg/redis/checkpoint"
 	"github.com/mgtv-tech/redis-GunYu/pkg/redis/client"
 	"github.com/mgtv-tech/redis-GunYu/pkg/redis/client/conn"
@@ -805,6 +807,8 @@ type vfc13Link struct {
 	ro       *RedisOutput
 	tg       *vfdoubles.Target
 	logMark  int
+	retired  bool     // the syncer switched its recovery format: its life under namespace `cp` is over (see retire)
+	names    []string // further namespace names this syncer generated (the one a format switch moves to)
 }
 
 // a fresh real connection into the link's target double
@@ -943,14 +947,48 @@ func (l *vfc13Link) newRequests() []vfc13Req {
 }
 
 // classify a stand-alone bookkeeping request into the model's vocabulary
+// (the namespace is the link's own or one its syncer generated for a format switch)
 func (w *vfc13World) bookToken(l *vfc13Link, c vfc13Cmd) (string, bool) {
+	for _, cp := range append([]string{l.cp}, l.names...) {
+		if tok, ok := w.bookTokenFor(cp, c); ok {
+			return tok, true
+		}
+	}
+	return "", false
+}
+
+// vfc13PlainNsKey: a latest / index / journal key of namespace cp (a control key that never carries an expiry)
+func vfc13PlainNsKey(cp, k string) bool {
+	pre := checkpoint.BisyncKeyPrefix + ":" + cp + ":"
+	if !strings.HasPrefix(k, pre) {
+		return false
+	}
+	rest := k[len(pre):]
+	for _, lit := range []string{"latest:{", "index:{"} {
+		if strings.HasPrefix(rest, lit) && strings.HasSuffix(rest, "}") {
+			tag := rest[len(lit) : len(rest)-1]
+			return checkpoint.BisyncLatestCheckpointKey(cp, tag) == k || checkpoint.BisyncCommitIndexKey(cp, tag) == k
+		}
+	}
+	if strings.HasPrefix(rest, "commit:{") {
+		body := rest[len("commit:{"):]
+		i := strings.Index(body, "}:")
+		if i < 0 {
+			return false
+		}
+		seq, err := strconv.ParseInt(body[i+2:], 10, 64)
+		return err == nil && seq >= 0 && checkpoint.BisyncCommitRecordKey(cp, body[:i], seq) == k
+	}
+	return false
+}
+
+func (w *vfc13World) bookTokenFor(cp string, c vfc13Cmd) (string, bool) {
 	name := c.lower()
 	if len(c.Args) == 0 {
 		return "", false
 	}
 	k := string(c.Args[0])
 	hexl := func(bs [][]byte) string { return vfutil.HexList(bs) }
-	cp := l.cp
 	switch {
 	case name == "hset" && k == checkpoint.BisyncFrontierKey(cp):
 		return fmt.Sprintf("fs:%s:%s", vfutil.HexS(cp), hexl(c.Args[1:])), true
@@ -983,6 +1021,33 @@ func (w *vfc13World) bookToken(l *vfc13Link, c vfc13Cmd) (string, bool) {
 		return fmt.Sprintf("hd:%s", vfutil.Hex(c.Args[1])), true
 	case name == "del" && len(c.Args) == 1 && k == checkpoint.BisyncFrontierKey(cp):
 		return fmt.Sprintf("fd:%s", vfutil.HexS(cp)), true
+	case name == "del" && len(c.Args) == 2 && k == cp && string(c.Args[1]) == checkpoint.BisyncFrontierKey(cp):
+		// cleanupBisyncNamespace: the root keys of a retired namespace
+		return fmt.Sprintf("rd:%s", vfutil.HexS(cp)), true
+	case name == "del" && len(c.Args) == 1 && checkpoint.IsBisyncLatestKey(k):
+		// ResetStartPoint: the latest record of a recovery slot, one DEL per slot
+		rest := strings.TrimPrefix(k, checkpoint.BisyncKeyPrefix+":"+cp+":latest:{")
+		tag := strings.TrimSuffix(rest, "}")
+		if checkpoint.BisyncLatestCheckpointKey(cp, tag) != k {
+			return "", false
+		}
+		return fmt.Sprintf("ld:%s:%s", vfutil.HexS(cp), vfutil.HexS(tag)), true
+	case name == "del" && len(c.Args) == 1 && checkpoint.IsBisyncMarkerKey(k):
+		// cleanupBisyncNamespace: the marker of a retired namespace, ALONE in its DEL (it is the one control key with an expiry)
+		rest := strings.TrimPrefix(k, checkpoint.BisyncKeyPrefix+":"+cp+":marker:{")
+		tag := strings.TrimSuffix(rest, "}")
+		if checkpoint.BisyncMarkerKey(cp, tag) != k {
+			return "", false
+		}
+		return fmt.Sprintf("md:%s:%s", vfutil.HexS(cp), vfutil.HexS(tag)), true
+	case name == "del" && len(c.Args) >= 1:
+		// cleanupBisyncNamespace: latest / index / journal keys of a retired namespace, several per DEL; none carries an expiry
+		for _, a := range c.Args {
+			if !vfc13PlainNsKey(cp, string(a)) {
+				return "", false
+			}
+		}
+		return fmt.Sprintf("nd:%s:%s", vfutil.HexS(cp), hexl(c.Args)), true
 	case name == "hset" && k == cp:
 		return fmt.Sprintf("rs:%s:%s", vfutil.HexS(cp), hexl(c.Args[1:])), true
 	case name == "hdel" && k == cp:
@@ -1057,7 +1122,7 @@ func (w *vfc13World) linkRun(r *vfutil.Rand, src int, n int) bool {
 		kind = "l"
 	}
 	avail := len(w.sites[src].stream) - l.pos
-	if l.halted || avail <= 0 {
+	if l.halted || l.retired || avail <= 0 {
 		return false
 	}
 	if n > avail {
@@ -1173,6 +1238,9 @@ func (w *vfc13World) linkRun(r *vfutil.Rand, src int, n int) bool {
 // last unit it committed with a fresh parser; blocks it had passed over since are read again; a stop is forgotten
 func (w *vfc13World) restart(src int) {
 	l := w.links[src]
+	if l.retired {
+		return
+	}
 	w.evs = append(w.evs, fmt.Sprintf("R%s:%d:%d", vfc13SiteName(src), l.cpos, l.ro.bisyncSeq.Load()+1))
 	l.pos, l.off, l.halted = l.cpos, l.coff, false
 	w.s.Count("link_restart")
@@ -1196,6 +1264,9 @@ func (w *vfc13World) blockStart(src, i int) int64 {
 // committed unit is allowed (pipeline / parallel): from then on units may repeat, nothing else may change.
 func (w *vfc13World) realRestart(r *vfutil.Rand, src int) {
 	l := w.links[src]
+	if l.retired {
+		return
+	}
 	name := vfc13SiteName(src)
 	ro := l.ro
 	fresh := r.Bool()
@@ -1245,7 +1316,34 @@ func (w *vfc13World) realRestart(r *vfutil.Rand, src int) {
 		return
 	case p > l.pos:
 		// the resume point lies beyond what the harness has accounted for as read: the blocks in between were
-		// passed over by the interrupted run (reported offsets include them); none of them may be owed a commit
+		// passed over by the interrupted run (reported offsets include them), or - after a restart that had rewound -
+		// they were committed in an EARLIER life whose journal records the start point has joined with this life's.
+		// A client block among them that was never committed is lost for good: foreign-block-suppressed (skipBlock).
+		// One that was committed before is not suppressed; but the model's restart does not move forward over blocks
+		// it would commit (Ev.restart resumes at a block already reached), so this start is not taken: the link goes
+		// on where it was (repeats are allowed since the rewind).
+		repeated := false
+		for i := l.pos; i < p; i++ {
+			b := w.sites[src].stream[i]
+			if b.tag[0] == 'f' && len(b.cmds) > 0 && w.commitCount[b.tag] > 0 {
+				repeated = true
+			}
+		}
+		if repeated {
+			for i := l.pos; i < p; i++ {
+				b := w.sites[src].stream[i]
+				var id int
+				fmt.Sscanf(b.tag, "f%d", &id)
+				if b.tag[0] == 'f' && len(b.cmds) > 0 && w.commitCount[b.tag] == 0 && w.foreignOK[id] {
+					w.violate("foreign-block-suppressed", "the start point moved past a client block outside the reserved namespace that was never committed at the other site",
+						map[string]interface{}{"block": b.tok(), "tag": b.tag, "site": name, "redis": w.sites[l.src].cfg.bits()})
+					w.viol = true
+				}
+			}
+			w.s.Count("real_restart_ahead_over_units_of_an_earlier_life_" + kind)
+			keep()
+			return
+		}
 		lk := "j"
 		if l.mode == config.ReplayModeSync || l.mode == "" {
 			lk = "l"
@@ -1354,6 +1452,9 @@ func (w *vfc13World) commitBlock(l *vfc13Link, kind string, blk vfc13Block, txn 
 // snapshot: the link from `src` commits one snapshot-phase unit at the other site
 func (w *vfc13World) snapshot(src int, cmds []vfc13Cmd) {
 	l := w.links[src]
+	if l.retired {
+		return
+	}
 	name := vfc13SiteName(src)
 	aof := make([]bisyncAofCommand, len(cmds))
 	for i, c := range cmds {
@@ -1398,6 +1499,9 @@ func (w *vfc13World) snapshot(src int, cmds []vfc13Cmd) {
 // namespace / checkpoint bookkeeping through the real checkpoint functions
 func (w *vfc13World) namespaceBookkeeping(r *vfutil.Rand, src int) {
 	l := w.links[src]
+	if l.retired {
+		return
+	}
 	l.newRequests()
 	c := l.dial()
 	rid := "runid-" + vfc13SiteName(src)
@@ -1415,19 +1519,155 @@ func (w *vfc13World) namespaceBookkeeping(r *vfutil.Rand, src int) {
 	case 5:
 		checkpoint.DelCheckpoint(c, l.cp, rid+"-gone")
 	default:
-		checkpoint.SaveBisyncFrontierSnapshot(c, checkpoint.BisyncFrontierKey(l.cp),
-			&checkpoint.BisyncFrontierSnapshot{Version: "1", RunID: rid, UnitSeq: 1, Offset: l.off, MTime: 1})
+		// a frontier save as the coordinator's flush makes it: the frontier this process has REPORTED (bisyncSeq /
+		// bisyncOffset are what flush stores after saving). An invented numbering (seq 1 at the read position) is not a
+		// state the tool can produce and made the real StartPoint resume inside an earlier life's units.
+		if seq, off := l.ro.bisyncSeq.Load(), l.ro.bisyncOffset.Load(); l.mode != config.ReplayModeSync && l.mode != "" && seq > 0 && off >= 0 {
+			checkpoint.SaveBisyncFrontierSnapshot(c, checkpoint.BisyncFrontierKey(l.cp),
+				&checkpoint.BisyncFrontierSnapshot{Version: config.Version, RunID: rid, UnitSeq: seq, Offset: off, MTime: time.Now().UnixNano()})
+		} else {
+			checkpoint.SaveBisyncNamespaceMode(c, l.cp, checkpoint.BisyncModeFromReplayMode(l.mode))
+		}
 	}
 	for _, q := range l.newRequests() {
 		w.applyToolRequest(l, q)
 	}
 }
 
+// retire: the syncer of the link reading `src` is started again with the OTHER recovery format (sync <->
+// pipeline / parallel). The REAL (*syncer).resolveBisyncCheckpointNameWithClient runs on the link's target
+// double: a new namespace name from the real NewBisyncCheckpointName, seeded from the old recovery state,
+// the checkpoint hash repointed, the old namespace cleaned up (cleanupBisyncNamespace: journal records,
+// marker / latest / index keys, root keys). Everything it writes is bookkeeping traffic the opposite link
+// must pass over — also when the old marker has logically expired and Redis propagates its deletion ahead
+// of the DEL that touched it. The syncer's life under the old namespace ends here (the model has one name
+// per link): the link reads no further block in this history.
+func (w *vfc13World) retire(r *vfutil.Rand, src int) {
+	l := w.links[src]
+	if l.retired {
+		return
+	}
+	name := vfc13SiteName(src)
+	rid := "runid-" + name
+	cur := checkpoint.BisyncModeFromReplayMode(l.mode)
+	desired := checkpoint.BisyncModePipeline
+	if r.Bool() {
+		desired = checkpoint.BisyncModeParallel
+	}
+	if cur.UsesFrontier() {
+		desired = checkpoint.BisyncModeSync
+	}
+	// what the first start of this syncer left in the checkpoint hash (state of the double only)
+	l.tg.CutAt = -1
+	l.tg.Seed(0, "hset", config.CheckpointKeyHashKey, rid, l.cp)
+	l.newRequests()
+	sy := &syncer{cfg: SyncerConfig{Output: l.ro.cfg.Redis}, logger: log.WithLogger("[vf] ")}
+	c := l.dial()
+	newName, err := sy.resolveBisyncCheckpointNameWithClient(c, []string{rid, "0000000000000000000000000000000000000000"}, desired, []uint16{0})
+	c.Close()
+	l.tg.CloseAll()
+	reqs := l.newRequests()
+	if err != nil {
+		// no authoritative state to seed the new namespace from (nothing committed yet, a bookkeeping event of
+		// this history rewrote the root): the switch is refused, nothing may have been cleaned up
+		w.s.Count("retire_refused")
+	} else if newName == l.cp {
+		w.s.Count("retire_in_place")
+	} else {
+		w.s.Count("retire_migrated_to_" + string(desired))
+		if !strings.HasPrefix(newName, checkpoint.BisyncCheckpointKeyPrefix+":") || strings.ContainsAny(newName[len(checkpoint.BisyncCheckpointKeyPrefix)+1:], "{}:") {
+			w.violate("tie-shape:generated-name-malformed", "the namespace name of the format switch is not <prefix>:<hex>: "+newName, map[string]interface{}{"name": newName})
+			w.viol = true
+		}
+		l.names = append(l.names, newName)
+	}
+	// the name the switch STARTED to write, should it have failed half-way
+	for _, q := range reqs {
+		for _, cm := range q.cmds {
+			if (cm.lower() == "hset" || cm.lower() == "hsetnx") && len(cm.Args) == 3 && string(cm.Args[0]) == config.CheckpointKeyHashKey {
+				l.names = append(l.names, string(cm.Args[2]))
+			} else if cm.lower() == "hset" && len(cm.Args) > 0 && strings.HasPrefix(string(cm.Args[0]), checkpoint.BisyncCheckpointKeyPrefix+":") &&
+				!strings.Contains(string(cm.Args[0])[len(checkpoint.BisyncCheckpointKeyPrefix)+1:], ":") {
+				l.names = append(l.names, string(cm.Args[0]))
+			}
+		}
+	}
+	markerGone := false
+	if e, ok := w.sites[l.dst].store[checkpoint.BisyncMarkerKey(l.cp, checkpoint.BisyncSlotTag(0))]; ok && e.exp >= 0 && e.exp <= w.sites[l.dst].now {
+		markerGone = true
+	}
+	for _, q := range reqs {
+		w.applyToolRequest(l, q)
+	}
+	if err == nil && newName != l.cp {
+		if markerGone {
+			w.s.Count("retire_with_marker_expired_unreaped")
+		}
+		l.retired = true
+	}
+}
+
+// resync: the source of the link reading `src` answered FULLRESYNC. The REAL RedisOutput.ResetStartPoint runs on
+// the link's target double: DelCheckpoint of every id, purgeBisyncRecoveryState (journal records, index members,
+// frontier), the latest record of every recovery slot - all of it bookkeeping traffic the OPPOSITE link, which goes
+// on running, must pass over (also a day after this link's last commit, its marker expired but not reaped). The
+// full resynchronisation that follows is another history (the model has no event for it): this link reads no
+// further block here.
+func (w *vfc13World) resync(r *vfutil.Rand, src int) {
+	l := w.links[src]
+	if l.retired {
+		return
+	}
+	rid := "runid-" + vfc13SiteName(src)
+	l.tg.CutAt = -1
+	l.newRequests()
+	err := l.ro.ResetStartPoint(context.Background(), []string{rid, "0000000000000000000000000000000000000000"})
+	l.tg.CloseAll()
+	if err != nil {
+		w.s.Count("resync_reset_failed")
+	}
+	for _, q := range l.newRequests() {
+		w.applyToolRequest(l, q)
+	}
+	l.retired = true
+	w.s.Count("resync_reset_start_point")
+}
+
+// ha: high availability without etcd - the tool registers itself and campaigns on its INPUT Redis, i.e. it writes
+// keys with an expiry under /redis-gunyu into the stream its own link reads (pkg/cluster/redis_cluster.go Register:
+// SET <registry key> <id> EX ttl every ttl/4, DEL on exit; redis_election.go: scripts whose effects are SET … EX,
+// EXPIRE, DEL). Tool traffic: nothing of it may come out as a replay unit, whatever expiry the keys carry.
+func (w *vfc13World) ha(r *vfutil.Rand, site int) {
+	reg := "/redis-gunyu/g1/registry/" + vfutil.Pick(r, []string{"10.0.0.1:18001", "10.0.0.2:18001"})
+	el := "/redis-gunyu/g1/election"
+	var c vfc13Cmd
+	switch r.Intn(6) {
+	case 0, 1:
+		c = vfc13C("SET", reg, "id", "EX", "10")
+	case 2:
+		c = vfc13C("DEL", reg)
+	case 3:
+		c = vfc13C("SET", el, "id", "EX", "10")
+	case 4:
+		c = vfc13C("EXPIRE", el, "10")
+	default:
+		c = vfc13C("DEL", el)
+	}
+	w.haCmd(site, c)
+}
+
+func (w *vfc13World) haCmd(site int, c vfc13Cmd) {
+	// Ev.toolRaw of the link whose DESTINATION is this site: executed here, tagged as tool traffic
+	w.evs = append(w.evs, fmt.Sprintf("r%s:0:%s", vfc13SiteName(1-site), c.tok()))
+	w.sites[site].exec(false, []vfc13Cmd{c}, func(int) string { return "book" })
+	w.s.Count("ha_" + c.lower())
+}
+
 func (w *vfc13World) pendingForeign() int {
 	n := 0
 	for i := 0; i < 2; i++ {
 		l := w.links[i]
-		if l.halted {
+		if l.halted || l.retired {
 			continue
 		}
 		for _, b := range w.sites[i].stream[l.pos:] {
@@ -1590,8 +1830,30 @@ func vfc13RunHistory(t *testing.T, s *vfutil.Session, sub uint64, nEv int) bool 
 				sc[j] = vfc13ClientCmd(r, w)
 			}
 			w.snapshot(site, sc)
+		case x < 96:
+			w.ha(r, site)
 		default:
 			w.namespaceBookkeeping(r, site)
+		}
+	}
+	if !w.cuts && r.Chance(1, 3) {
+		// epilogue: one syncer is started again with the other recovery format (namespace migration and
+		// clean-up through the real code), in half of the cases a day after its last commit, the marker
+		// of the old namespace expired but not reaped
+		site := r.Intn(2)
+		if w.links[site].cpos == 0 {
+			w.client(site, false, []vfc13Cmd{vfc13ClientCmd(r, w)}, true)
+			w.linkRun(r, site, 1<<30)
+		}
+		if r.Bool() {
+			w.tick(1-site, int64(86400000+r.Intn(5000)))
+		}
+		if r.Bool() {
+			w.retire(r, site)
+			s.Count("history_with_format_switch")
+		} else {
+			w.resync(r, site)
+			s.Count("history_with_full_resync")
 		}
 	}
 	w.drain(r)
@@ -1835,6 +2097,10 @@ func TestVerifC13(t *testing.T) {
 		s.Add("parse_units", len(units))
 	}
 
+	// ---- checkpoint names: the real NewBisyncCheckpointName against the model (the random bytes are read back
+	// from the name), and the checkpoint hash under sequences of real starts
+	vfc13Names(t, s, r)
+
 	// ---- databases: a write made in DB n at one site must be applied in DB n at the other
 	vfc13DbProbe(t, s)
 
@@ -1853,7 +2119,7 @@ func TestVerifC13(t *testing.T) {
 
 // vfc13RunScript replays a corpus history: tokens
 //
-//	cfg=<bitsA>,<bitsB> kind=<l|j|p> (sync | pipeline | parallel send loop)  c<S>:<cmd>  m<S>:<cmd>/…  t<S>:<dt>  x<S>:<hexkey>  l<S>
+//	cfg=<bitsA>,<bitsB> kind=<l|j|p> (sync | pipeline | parallel send loop)  c<S>:<cmd>  m<S>:<cmd>/…  t<S>:<dt>  x<S>:<hexkey>  l<S>  R<S>  Q<S> (format switch)  F<S> (FULLRESYNC: ResetStartPoint)  H<S>:<cmd> (registry / election traffic)
 func vfc13RunScript(t *testing.T, s *vfutil.Session, line string) bool {
 	r := vfutil.NewRand(7)
 	ca, cb := vfc13RedisCfg{false, true, true}, vfc13RedisCfg{false, true, true}
@@ -1914,10 +2180,178 @@ func vfc13RunScript(t *testing.T, s *vfutil.Session, line string) bool {
 			w.linkRun(r, site, 1)
 		case 'R':
 			w.restart(site)
+		case 'Q':
+			// the syncer of this link switches its recovery format (real resolveBisyncCheckpointNameWithClient)
+			w.retire(r, site)
+		case 'F':
+			// the source of this link answered FULLRESYNC (real ResetStartPoint)
+			w.resync(r, site)
+		case 'H':
+			// the tool's registry / election traffic on the input Redis at this site
+			w.haCmd(site, parseCmd(body))
 		}
 	}
 	w.finish()
 	return w.viol
+}
+
+// vfc13NameBuf: the random bytes of a generated name "<prefix>:<hex>" (nil, false when it has another form)
+func vfc13NameBuf(name string) ([]byte, bool) {
+	pre := checkpoint.BisyncCheckpointKeyPrefix + ":"
+	if !strings.HasPrefix(name, pre) {
+		return nil, false
+	}
+	h := name[len(pre):]
+	if len(h)%2 != 0 || strings.ToLower(h) != h {
+		return nil, false
+	}
+	buf := make([]byte, len(h)/2)
+	for i := range buf {
+		v, err := strconv.ParseUint(h[2*i:2*i+2], 16, 8)
+		if err != nil {
+			return nil, false
+		}
+		buf[i] = byte(v)
+	}
+	return buf, true
+}
+
+// vfc13Names: (1) NewBisyncCheckpointName vs the Lean newCpName; (2) sequences of starts against one target
+// double through the REAL resolveBisyncCheckpointNameWithClient (create / read back / recovery-format switch)
+// and the REAL UpdateCheckpoint: the names they come up with and the checkpoint hash afterwards vs the Lean
+// runStarts. Monitor (the property needs it: a marker key is recognised by its first brace pair): every name
+// is "<reserved prefix>…" without a brace.
+func vfc13Names(t *testing.T, s *vfutil.Session, r *vfutil.Rand) {
+	for i := 0; i < vfutil.Scale(200, 5000); i++ {
+		name, err := checkpoint.NewBisyncCheckpointName()
+		buf, ok := vfc13NameBuf(name)
+		if err != nil || !ok || len(buf) != 12 || strings.ContainsAny(name, "{}") || !strings.HasPrefix(name, config.CheckpointKey) {
+			s.Violate("tie-shape:generated-name-malformed", fmt.Sprintf("NewBisyncCheckpointName returned %q (%v): not <reserved prefix>:<24 hex digits>", name, err), map[string]interface{}{"name": name})
+			continue
+		}
+		s.Op("c13 cpname "+vfutil.Hex(buf), vfutil.HexS(name))
+		s.Count("cpname_generated")
+	}
+	zero := "0000000000000000000000000000000000000000"
+	for i := 0; i < vfutil.Scale(60, 2000); i++ {
+		tg := vfdoubles.NewTarget()
+		tg.Lenient = true
+		rc := checkpoint.VfRedisCfg()
+		sy := &syncer{cfg: SyncerConfig{Output: rc}, logger: log.WithLogger("[vf] ")}
+		// run ids of equal length (real ones are 40 hex digits): fetchCheckpoint matches hash fields by id PREFIX
+		ids := []string{fmt.Sprintf("rid%05d", r.Intn(100000))}
+		var toks, names []string
+		bad := false
+		for j, n := 0, r.Range(1, 5); j < n && !bad; j++ {
+			// the source's run id: unchanged, or a new one with the previous as second id (a failover)
+			id1, id2 := ids[len(ids)-1], zero
+			if r.Chance(1, 3) {
+				id1, id2 = fmt.Sprintf("rid%05d", r.Intn(100000)), ids[len(ids)-1]
+				ids = append(ids, id1)
+			}
+			mark := tg.LogLen()
+			cli := conn.VerifNewRedisConn(tg.Dial(), rc)
+			var name, tok string
+			switch k := r.Intn(10); {
+			case k < 7:
+				// a bidirectional syncer; mode drawn so that a stored namespace of the other family is switched
+				mode := vfutil.Pick(r, []checkpoint.BisyncMode{checkpoint.BisyncModeSync, checkpoint.BisyncModeSync, checkpoint.BisyncModePipeline})
+				before, _, _ := checkpoint.GetCheckpointHash(conn.VerifNewRedisConn(tg.Dial(), rc), []string{id1, id2})
+				nm, err := sy.resolveBisyncCheckpointNameWithClient(cli, []string{id1, id2}, mode, []uint16{0})
+				if err != nil {
+					// no authoritative state to seed the other format from: the start fails, nothing is learnt
+					s.Count("names_start_refused")
+					bad = true
+					break
+				}
+				name = nm
+				buf := []byte{}
+				if before != "" && nm != before {
+					s.Count("names_format_switch")
+				}
+				if nm != before {
+					b, ok := vfc13NameBuf(nm)
+					if !ok {
+						s.Violate("tie-shape:generated-name-malformed", "a start came up with "+nm, map[string]interface{}{"name": nm})
+						bad = true
+						break
+					}
+					buf = b
+				}
+				if before == "" {
+					s.Count("names_created")
+				} else if nm == before {
+					s.Count("names_read_back")
+				}
+				// the op carries the INPUTS only (ids, the random bytes, the desired recovery family): whether the start
+				// switches the format, and what UpdateCheckpoint relabels and drops, the model computes
+				fam := "s"
+				if mode.UsesFrontier() {
+					fam = "f"
+				}
+				tok = fmt.Sprintf("b:%s:%s:%s:%s", vfutil.HexS(id1), vfutil.HexS(id2), vfutil.Hex(buf), fam)
+				// recovery state under the name, so that a later start with the other format finds a seed
+				if mode == checkpoint.BisyncModeSync {
+					rec := &checkpoint.BisyncCommitRecord{Key: checkpoint.BisyncLatestCheckpointKey(nm, checkpoint.BisyncSlotTag(0)), RecordType: "latest",
+						Version: config.Version, RunID: id1, SyncerID: "in", UnitSeq: int64(j + 1), StartOffset: 10, EndOffset: int64(20 + j), MTime: 5}
+					args := []string{"hset", rec.Key}
+					for _, a := range rec.HashArgs() {
+						args = append(args, fmt.Sprint(a))
+					}
+					tg.Seed(0, args...)
+				} else {
+					tg.Seed(0, "hset", checkpoint.BisyncFrontierKey(nm), "version", config.Version, "run_id", id1, "unit_seq", strconv.Itoa(j+1), "end_offset", strconv.Itoa(20+j), "mtime", "5")
+				}
+			case k < 9:
+				name, tok = config.CheckpointKey, fmt.Sprintf("p:%s:%s", vfutil.HexS(id1), vfutil.HexS(id2))
+				s.Count("names_plain")
+			default:
+				name = choseKeyInSlots(config.CheckpointKey, &config.RedisSlots{Ranges: []config.RedisSlotRange{{Left: r.Intn(8000), Right: 8000 + r.Intn(8000)}}})
+				tok = fmt.Sprintf("s:%s:%s:%s", vfutil.HexS(id1), vfutil.HexS(id2), vfutil.HexS(strings.TrimPrefix(name, config.CheckpointKey+"-")))
+				s.Count("names_plain_slot")
+			}
+			if bad {
+				break
+			}
+			// the real UpdateCheckpoint (root checkpoints exist only as the real code wrote them)
+			um := tg.LogLen()
+			if err := checkpoint.UpdateCheckpoint(conn.VerifNewRedisConn(tg.Dial(), rc), name, []string{id1, id2}); err != nil {
+				s.Count("names_update_failed")
+			}
+			for _, e := range tg.LogCopy()[um:] {
+				if len(e.Args) >= 2 && string(e.Args[1]) == config.CheckpointKeyHashKey {
+					switch e.Cmd() {
+					case "hset":
+						s.Count("names_relabelled")
+					case "hdel":
+						s.Count("names_old_id_dropped")
+					}
+				}
+			}
+			_ = mark
+			toks = append(toks, tok)
+			names = append(names, vfutil.HexS(name))
+			if strings.ContainsAny(name, "{}") || !strings.HasPrefix(name, config.CheckpointKey) {
+				s.Violate("tie-shape:generated-name-malformed", "a start came up with the checkpoint name "+name, map[string]interface{}{"name": name})
+			}
+		}
+		tg.CloseAll()
+		if bad || len(toks) == 0 {
+			continue
+		}
+		hf := tg.HashFields(0, config.CheckpointKeyHashKey)
+		var hs []string
+		for k, v := range hf {
+			hs = append(hs, vfutil.HexS(k)+"="+vfutil.HexS(v))
+		}
+		sort.Strings(hs)
+		hash := "."
+		if len(hs) > 0 {
+			hash = strings.Join(hs, ",")
+		}
+		s.Op("c13 names "+strings.Join(toks, " "), strings.Join(names, " ")+" ; "+hash)
+		s.Count("names_sequences")
+	}
 }
 
 // vfc13DbProbe: what a master propagates for client writes in DB 3 (SELECT 3,
@@ -1936,6 +2370,21 @@ func vfc13DbProbe(t *testing.T, s *vfutil.Session) {
 		{[]vfc13Cmd{vfc13C("SELECT", "1"), vfc13C("SET", "a", "1"), vfc13C("SELECT", "5"), vfc13C("MULTI"), vfc13C("SET", "b", "1"), vfc13C("SET", "c", "2"),
 			vfc13C("DEL", "a"), vfc13C("EXEC"), vfc13C("RPUSH", "d", "1"), vfc13C("SELECT", "1"), vfc13C("MULTI"), vfc13C("INCR", "e"), vfc13C("EXEC"),
 			vfc13C("SELECT", "0"), vfc13C("MULTI"), vfc13C("SET", "f", "1"), vfc13C("EXEC"), vfc13C("SELECT", "5"), vfc13C("DEL", "b")}, []int{1, 5, 5, 1, 0, 5}},
+	}
+	// why D31 is not a one-line repair (see known_findings.d/C13.json): a parser that RESUMES behind a SELECT does not
+	// know the database — the real parser, started at the offset behind "SELECT 3", hands on "SET a 1" with Db = -1
+	// (a partial resynchronisation does not repeat the SELECT). Measured, not judged.
+	{
+		ro := vfc13NewOutput(false, "none", "redis-gunyu-checkpoint-bisync:00000000000000000000db99", nil, nil, nil)
+		sel := vfc13Resp(vfc13C("SELECT", "3"))
+		units, _ := vfc13Parse(ro, int64(len(sel)), 1, vfc13Resp(vfc13C("SET", "a", "1")))
+		if len(units) == 1 && len(units[0].Commands) == 1 {
+			s.Count(fmt.Sprintf("db_of_unit_parsed_from_resume_offset_%d", units[0].Commands[0].Db))
+		}
+		units, _ = vfc13Parse(ro, 0, 1, append(sel, vfc13Resp(vfc13C("SET", "a", "1"))...))
+		if len(units) == 1 && len(units[0].Commands) == 1 {
+			s.Count(fmt.Sprintf("db_of_unit_parsed_behind_select_%d", units[0].Commands[0].Db))
+		}
 	}
 	for _, mode := range []config.ReplayMode{config.ReplayModeSync, config.ReplayModePipeline, config.ReplayModeParallel} {
 		for dir, site := range []string{"A", "B"} { // both links of a pair
